@@ -218,7 +218,13 @@ pub fn end() -> Report {
         s.qset.clear();
         (rep, std::mem::take(&mut s.quarantine))
     });
+    let mut rep = rep;
     for (p, layout) in q {
+        // a freed block was poisoned and kept out of circulation: any other byte pattern is a write after free
+        let intact = unsafe { std::slice::from_raw_parts(p as *const u8, layout.size()) }.iter().all(|b| *b == 0xDE);
+        if !intact {
+            rep.errors.push(format!("write into a freed block of {} bytes (its poison pattern was overwritten after the free)", layout.size()));
+        }
         unsafe { System.dealloc(p as *mut u8, layout) };
     }
     rep
